@@ -146,6 +146,18 @@ func (s *Sched) get(name string) *g {
 }
 
 func (s *Sched) wait(gg *g, d time.Duration) (Status, string) {
+	// An arrival that is already pending wins over an expired timer (select
+	// would pick at random).
+	select {
+	case e := <-gg.events:
+		if e.done {
+			gg.finished, gg.parked = true, false
+			return Done, ""
+		}
+		gg.parked, gg.point = true, e.point
+		return AtGate, e.point
+	default:
+	}
 	t := time.NewTimer(d)
 	defer t.Stop()
 	select {
